@@ -330,6 +330,15 @@ fn family_spec(f: usize, j: usize) -> Spec {
         3 => Spec { owner: Owner::Key(1, 0), coin: 1_500_000, assets: vec![((j % 200) as u8, if j < 200 { vec![] } else { vec![1] }, 3)] },
         // the same asset in every UTxO (one summed quantity), little ADA each
         4 => Spec { owner: Owner::Key(2, 1), coin: 1_100_000, assets: vec![(0, b"same".to_vec(), 11)] },
+        // 6, 7: the SAME dozen assets (32-byte names) in every UTxO; the per-UTxO quantity fits a
+        // narrower CBOR integer than the sum over two or more UTxOs (40 000 x 2 crosses 2^16,
+        // 3 000 000 000 x 2 crosses 2^32): the value size of the packed output is only right if the
+        // widths of the SUMS are used
+        6 | 7 => Spec {
+            owner: Owner::Key(4, (j % 2) as u8),
+            coin: 6_000_000,
+            assets: (0..12u8).map(|a| (a / 6, (0..32u8).map(|k| k.wrapping_mul(7) ^ a).collect::<Vec<u8>>(), if f == 6 { 40_000 } else { 3_000_000_000 })).collect(),
+        },
         // Byron owners, alternating two addresses, with a key-owned one every third
         _ => {
             if j % 3 == 2 {
@@ -340,7 +349,7 @@ fn family_spec(f: usize, j: usize) -> Spec {
         }
     }
 }
-const N_FAMILIES: usize = 6;
+const N_FAMILIES: usize = 8;
 
 fn sc_families(ns: Vec<usize>) -> impl Fn(&mut Ctx) + Sync {
     move |ctx: &mut Ctx| {
@@ -407,7 +416,7 @@ fn sc_sweep(steps: usize) -> impl Fn(&mut Ctx) + Sync {
 /// must agree with real serialization at the byte, or the limit is exceeded
 fn sc_limit_sweep(ns: Vec<usize>) -> impl Fn(&mut Ctx) + Sync {
     move |ctx: &mut Ctx| {
-        let f = [2usize, 3, 4, 1, 5][ctx.choose_free(5)];
+        let f = [2usize, 3, 4, 1, 5, 6, 7][ctx.choose_free(7)];
         let ni = ctx.choose_free(ns.len());
         let which = ctx.choose_free(2);
         let d = ctx.choose_free(5) as u32;
@@ -417,7 +426,7 @@ fn sc_limit_sweep(ns: Vec<usize>) -> impl Fn(&mut Ctx) + Sync {
         if long_names {
             for (j, s) in specs.iter_mut().enumerate() {
                 for a in s.assets.iter_mut() {
-                    if a.1.len() == 3 {
+                    if a.1.len() == 3 && f < 6 {
                         a.1 = (0..32u8).map(|k| k ^ (j as u8)).collect();
                         a.2 = if j % 5 == 0 { 100 } else { 1 };
                     }
@@ -472,7 +481,7 @@ fn sc_limit_sweep(ns: Vec<usize>) -> impl Fn(&mut Ctx) + Sync {
 
 pub fn scenario(name: &str, tier: Tier) -> Option<BoxedScenario> {
     match name {
-        "sequences" => Some(Box::new(sc_sequences(if tier.thorough() { 5 } else { 3 }))),
+        "sequences" => Some(Box::new(sc_sequences(if tier.thorough() { 5 } else { 4 }))),
         "sweep" => Some(Box::new(sc_sweep(if tier.thorough() { 3000 } else { 1500 }))),
         "limit_sweep" => {
             let mut ns: Vec<usize> = (1..=40).collect();
@@ -495,8 +504,8 @@ pub fn scenario(name: &str, tier: Tier) -> Option<BoxedScenario> {
 
 pub fn run(tier: Tier, seed: u64) -> i32 {
     let mut rep = Report::new(P, tier, seed);
-    let n = if tier.thorough() { 5 } else { 3 };
-    rep.rule = format!("sequences: every sequence of <= {} UTxOs over 14 kinds (pure ADA 0.9 / 1.2 / 50 / 300 / 4000 / 2^40 lovelace-scale, assets whose summed quantity crosses 255|256, 2^32 and near-2^63 quantities, 0 / 1 / 32-byte names, 1..3 policies, asset-rich with little ADA, two Byron owners, one key behind enterprise / base / pointer addresses) x 8 parameter configurations (mainnet; max_tx_size 420; max_value_size 90; zero fee; coins_per_byte 1; 300/60; fee 1000/2000000; coins_per_byte 43100 with max_value_size 150) x 3 target addresses (base, Byron, script enterprise) x 2 hash-container seeds. families: 6 families (one key; distinct keys; distinct names under one policy; distinct policies; one shared asset; Byron/key mix) x n in the listed counts x 8 configurations x 2 seeds. sweep: an asset-carrying UTxO holding 1 ADA (4 kinds) + one pure-ADA UTxO swept from 0.15 ADA in 1000-lovelace steps + 0..2 small pure-ADA UTxOs x 8 configurations. limit_sweep: 5 families x n in 1..40, 60, 141 (thorough also 100, 254..257) x short / 32-byte names x (max_value_size = largest real value size - d | max_tx_size = real signed size - d) for d in 0..4. Oracle on the re-parsed transactions: inputs are supplied UTxOs, each spent exactly once over the batch, every output to the target, inputs == outputs + fee in lovelace and every asset, fee >= a*|signed tx| + b with one key witness per distinct payment key and one bootstrap witness per Byron address, |signed tx| <= max_tx_size, |value| <= max_value_size, coin >= coins_per_byte*(160+|output|), no zero quantities.", n);
+    let n = if tier.thorough() { 5 } else { 4 };
+    rep.rule = format!("sequences: every sequence of <= {} UTxOs over 14 kinds (pure ADA 0.9 / 1.2 / 50 / 300 / 4000 / 2^40 lovelace-scale, assets whose summed quantity crosses 255|256, 2^32 and near-2^63 quantities, 0 / 1 / 32-byte names, 1..3 policies, asset-rich with little ADA, two Byron owners, one key behind enterprise / base / pointer addresses) x 8 parameter configurations (mainnet; max_tx_size 420; max_value_size 90; zero fee; coins_per_byte 1; 300/60; fee 1000/2000000; coins_per_byte 43100 with max_value_size 150) x 3 target addresses (base, Byron, script enterprise) x 2 hash-container seeds. families: 8 families (one key; distinct keys; distinct names under one policy; distinct policies; one shared asset; Byron/key mix; a dozen shared assets whose summed quantities cross 2^16 / 2^32 while each holding does not) x n in the listed counts x 8 configurations x 2 seeds. sweep: an asset-carrying UTxO holding 1 ADA (4 kinds) + one pure-ADA UTxO swept from 0.15 ADA in 1000-lovelace steps + 0..2 small pure-ADA UTxOs x 8 configurations. limit_sweep: 7 families x n in 1..40, 60, 141 (thorough also 100, 254..257) x short / 32-byte names x (max_value_size = largest real value size - d | max_tx_size = real signed size - d) for d in 0..4. Oracle on the re-parsed transactions: inputs are supplied UTxOs, each spent exactly once over the batch, every output to the target, inputs == outputs + fee in lovelace and every asset, fee >= a*|signed tx| + b with one key witness per distinct payment key and one bootstrap witness per Byron address, |signed tx| <= max_tx_size, |value| <= max_value_size, coin >= coins_per_byte*(160+|output|), no zero quantities.", n);
     rep.assume("a refusal (Err) is not judged: the property is conditional on success");
     rep.assume("the signed size is computed by the harness (ledger::signed_bytes) from the emitted body plus real-size witnesses, not from the mock witnesses the library attaches");
     rep.trusted_base = vec!["harness/src/ledger.rs (parse_tx, min_fee, signed_bytes)".into(), "notes/ledger_rules.md §1-§3".into()];
